@@ -967,7 +967,11 @@ class LangServer:
         # Search through all files
         def_name: str = def_obj.name.lower()
         def_fqsn: str = def_obj.FQSN
-        NAME_REGEX = re.compile(rf"(?:\W|^)({def_name})(?:\W|$)", re.I)
+        # Look around the name instead of consuming its neighbours: in `i=i+1` the
+        # single character between two occurrences belongs to neither match
+        NAME_REGEX = re.compile(
+            rf"(?<![\w$])({re.escape(def_name)})(?![\w$])", re.I
+        )
         if file_obj is None:
             file_set = self.workspace.items()
         else:
